@@ -1125,6 +1125,16 @@ pub fn run_program(spec: &ProgSpec, dir: &str, report: &mut Report) -> Option<Fa
     }
     let mut runner = match Runner::open(spec, path.clone()) {
         Ok(r) => r,
+        Err(e) if e.starts_with("probe ") => {
+            // the very first calls on a freshly opened store (an automatically timestamped insert and delete of a key
+            // nobody else knows, clock standing still) were refused: that IS a wrong answer, not a set-up problem
+            report.violation(
+                format!("model:fresh-store:{}", e.split(':').next().unwrap_or("probe").replace(' ', "-")),
+                format!("on a freshly opened store ({}) with the clock standing still, an automatically timestamped insert followed by a delete of the same private key answered: {e}", spec.cfg.label()),
+                json!({"engine": "model", "config": spec.cfg.label(), "seed": spec.seed, "index": spec.index, "failed_at_step": 0}),
+            );
+            return Some(Failure { sig: "model:fresh-store".into(), msg: e, step: 0 });
+        }
         Err(e) => {
             report.inconclusive.push(format!("program {} on {}: {}", spec.index, spec.cfg.label(), e));
             return None;
